@@ -293,6 +293,39 @@ func stressFiles(dir string, n, iters int) {
 	child := px.NewParentedLoader(fl)
 	dep := px.NewDependencyLoader([]px.ModuleLoader{px.NewFileBasedLoader(px.StaticLoader(), dir, ``, px.PuppetDataTypePath)})
 	loaders := []px.Loader{fl, child, dep}
+	// fresh file based loaders whose FIRST operations come from several goroutines at once: HasEntry, Load and Discover
+	// of names that have a file, while the path index has not been built yet (it is built on demand by whoever comes first)
+	for k := 0; k < 12; k++ {
+		fresh := px.NewFileBasedLoader(px.StaticLoader(), dir, ``, px.PuppetDataTypePath)
+		parallel(n, func(g int, r *rng) {
+			c := newCtx()
+			nm := fileNames[(g+k)%len(fileNames)]
+			switch (g + k) % 4 {
+			case 0, 1:
+				guard("files", "first HasEntry", func() {
+					if !fresh.HasEntry(tn(nm)) {
+						functional("files", "HasEntry(%s) of a fresh loader is false for a name that has a file", nm)
+					}
+				})
+			case 2:
+				guard("files", "first Load", func() {
+					var ok bool
+					c.DoWithLoader(fresh, func() { _, ok = px.Load(c, tn(nm)) })
+					if !ok && !fresh.HasEntry(tn(nm)) {
+						functional("files", "first Load(%s) of a fresh loader: not found, and HasEntry is false", nm)
+					}
+				})
+			default:
+				guard("files", "first Discover", func() {
+					found := fresh.Discover(c, func(t px.TypedName) bool { return strings.EqualFold(t.Name(), nm) })
+					if len(found) != 1 {
+						functional("files", "first Discover of a fresh loader returned %d names for %s", len(found), nm)
+					}
+				})
+			}
+		})
+	}
+	parses = sync.Map{} // (each fresh loader has read the files for itself: the count below is about fl and dep)
 	var seen sync.Map
 	parallel(n, func(g int, r *rng) {
 		c := newCtx()
@@ -435,6 +468,35 @@ func stressTypes(n, iters int) {
 		ot = t.(px.ObjectType)
 		alias = c0.ParseType(`Variant[Array[Integer[1,5]], Hash[String, Struct[{a => Optional[Integer]}]], Tuple[String, Integer]]`)
 	})
+	// fresh types whose FIRST questions come from several goroutines at once (lazily built parts of a type: the member
+	// map of a Struct, the detailed forms): two separately built equal Structs accept each other, whoever asks first
+	var sb strings.Builder
+	for m := 0; m < 300; m++ {
+		fmt.Fprintf(&sb, "m%d => Integer[0,%d], ", m, m)
+	}
+	for k := 0; k < 8; k++ {
+		text := fmt.Sprintf("Struct[{%sk => Integer[%d,%d]}]", sb.String(), k, k+int(seed%1000))
+		sa, sb2 := c0.ParseType(text), c0.ParseType(text)
+		opt := c0.ParseType(fmt.Sprintf("Struct[{%sk => Integer[%d,%d], Optional[extra] => String}]", sb.String(), k, k+int(seed%1000)))
+		parallel(n, func(g int, r *rng) {
+			guard("types", "first IsAssignable of fresh Structs", func() {
+				switch g % 3 {
+				case 0:
+					if !px.IsAssignable(sa, sb2) {
+						functional("types", "a fresh Struct does not accept a separately built equal Struct (first question, several goroutines)")
+					}
+				case 1:
+					if !px.IsAssignable(opt, sb2) || px.IsAssignable(sb2, opt) {
+						functional("types", "fresh Structs: optional extra member judged wrongly (first question, several goroutines)")
+					}
+				default:
+					if !sb2.Equals(sa, nil) || !px.IsAssignable(sb2, sa) {
+						functional("types", "fresh equal Structs are not equal / not assignable (first question, several goroutines)")
+					}
+				}
+			})
+		})
+	}
 	name := px.NewTypedName(px.NsType, `Stress::Shared::Name`)
 	other := c0.ParseType(`Array[Integer[2,3]]`)
 	refStr := alias.String()
